@@ -254,13 +254,17 @@ func (e *Exec) merge2(a, b *State) *State {
 			} else {
 				n.Vars[k] = e.Ctx.Define("m_"+k.Name(), Ite(cond, va, vb))
 			}
+		} else if e.armedVar[k] {
+			n.Vars[k] = e.Ctx.Define("m_armed", Ite(cond, va, False))
 		} else if e.keepVar[k] {
 			// declared on one path only (a later scope): unknown on the other path
 			n.Vars[k] = e.Ctx.Define("m_"+k.Name(), Ite(cond, va, e.Ctx.Fresh("undef_"+k.Name(), va.Sort)))
 		}
 	}
 	for k, vb := range b.Vars {
-		if _, ok := a.Vars[k]; !ok && e.keepVar[k] {
+		if _, ok := a.Vars[k]; !ok && e.armedVar[k] {
+			n.Vars[k] = e.Ctx.Define("m_armed", Ite(cond, False, vb))
+		} else if !ok && e.keepVar[k] {
 			n.Vars[k] = e.Ctx.Define("m_"+k.Name(), Ite(cond, e.Ctx.Fresh("undef_"+k.Name(), vb.Sort), vb))
 		}
 	}
